@@ -589,6 +589,12 @@ class Runner:
             if k == "bulkpk":
                 self.sess.execute(sa.update(self.cls), [{"id": p + 1, "data": to_py(self.kind, op["c"])}])
             elif k == "updw":
+                if op["sync"] != "fetch":
+                    # the evaluator cannot decide `id == pk` for an object whose id is expired
+                    for q in range(len(self.objs)):
+                        stq = self.state(q)
+                        if q != p and "id" not in stq.dict and "data" in stq.dict:
+                            self.parent_guard.setdefault(q, "update-evaluate-applies-to-partially-expired-object")
                 self.sess.execute(
                     sa.update(self.cls).where(self.cls.id == p + 1).values(data=to_py(self.kind, op["c"])).execution_options(synchronize_session=op["sync"])
                 )
